@@ -32,31 +32,31 @@ func (e *Engine) externalModel(fr *frame, ins ssa.Instruction, name string, fn *
 	nilErr := e.zeroVal(types.Universe.Lookup("error").Type())
 	switch name {
 	case "strings.TrimSpace":
-		v, r, ok := unary("str.trim", strings.TrimSpace)
-		e.sc.assume(app("bvule", app("str.len", e.scalar(v).T), app("str.len", str(0))))
-		e.needStrOp("str.trim", []string{SStr}, SStr)
+		v, r, ok := unary("gs_trim", strings.TrimSpace)
+		e.sc.assume(app("bvule", app("gs_len", e.scalar(v).T), app("gs_len", str(0))))
+		e.needStrOp("gs_trim", []string{SStr}, SStr)
 		// idempotent
-		e.sc.assume(eq(app("str.trim", e.scalar(v).T), e.scalar(v).T))
+		e.sc.assume(eq(app("gs_trim", e.scalar(v).T), e.scalar(v).T))
 		return v, r, ok
 	case "strings.ToUpper":
-		v, r, ok := unary("str.upper", strings.ToUpper)
-		e.sc.assume(eq(app("str.upper", e.scalar(v).T), e.scalar(v).T))
+		v, r, ok := unary("gs_upper", strings.ToUpper)
+		e.sc.assume(eq(app("gs_upper", e.scalar(v).T), e.scalar(v).T))
 		return v, r, ok
 	case "strings.ToLower":
-		v, r, ok := unary("str.lower", strings.ToLower)
-		e.sc.assume(eq(app("str.lower", e.scalar(v).T), e.scalar(v).T))
+		v, r, ok := unary("gs_lower", strings.ToLower)
+		e.sc.assume(eq(app("gs_lower", e.scalar(v).T), e.scalar(v).T))
 		return v, r, ok
 	case "strings.HasPrefix":
-		return pred("str.hasprefix", strings.HasPrefix)
+		return pred("gs_hasprefix", strings.HasPrefix)
 	case "strings.HasSuffix":
-		return pred("str.hassuffix", strings.HasSuffix)
+		return pred("gs_hassuffix", strings.HasSuffix)
 	case "strings.Contains":
-		return pred("str.contains", strings.Contains)
+		return pred("gs_contains", strings.Contains)
 	case "strings.EqualFold":
-		return pred("str.equalfold", strings.EqualFold)
+		return pred("gs_equalfold", strings.EqualFold)
 	case "strings.TrimPrefix", "strings.TrimSuffix", "strings.Trim", "strings.TrimLeft", "strings.TrimRight", "strings.ReplaceAll":
 		use()
-		op := "str." + strings.ToLower(strings.TrimPrefix(name, "strings."))
+		op := "gs_" + strings.ToLower(strings.TrimPrefix(name, "strings."))
 		sorts := []string{}
 		ts := []string{}
 		for i := range args {
@@ -66,7 +66,7 @@ func (e *Engine) externalModel(fr *frame, ins ssa.Instruction, name string, fn *
 		e.needStrOp(op, sorts, SStr)
 		r := e.sc.define("s", SStr, app(op, ts...))
 		if name != "strings.ReplaceAll" {
-			e.sc.assume(app("bvule", app("str.len", r), app("str.len", str(0))))
+			e.sc.assume(app("bvule", app("gs_len", r), app("gs_len", str(0))))
 		}
 		// literal facts when every argument is a literal
 		all := true
@@ -114,7 +114,7 @@ func (e *Engine) externalModel(fr *frame, ins ssa.Instruction, name string, fn *
 	case "strings.Index", "strings.LastIndex", "strings.IndexByte":
 		use()
 		r := e.sc.declare("stridx", SI64)
-		e.sc.assume(and(app("bvsge", r, bvLit(^uint64(0), 64)), app("bvslt", r, app("str.len", str(0)))))
+		e.sc.assume(and(app("bvsge", r, bvLit(^uint64(0), 64)), app("bvslt", r, app("gs_len", str(0)))))
 		return Sc{r, SI64}, reach, true
 	case "strconv.ParseInt", "strconv.ParseUint":
 		use()
